@@ -371,8 +371,15 @@ def _neighbours(q, ans, rng):
     try:
         if op in ("cell_to_lonlat", "cell_to_boundary_default", "deserialize", "get_resolution") and len(t) == 2:
             out = [f"{op} {x}" for x in _id_neighbours(int(t[1]), rng)]
+            if op in ("cell_to_lonlat", "cell_to_boundary_default"):
+                # the same cell through the other geometry call / with explicit options
+                out += [f"cell_to_boundary {t[1]} {rng.randint(0, 1)} {rng.choice([1, 2, 3, 5])}", f"cell_to_boundary {t[1]} {rng.randint(0, 1)} none",
+                        ("cell_to_lonlat " if op != "cell_to_lonlat" else "cell_to_boundary_default ") + t[1]]
         elif op in ("cell_to_boundary", "cell_to_children", "cell_to_parent", "contains") and len(t) >= 3:
             out = [" ".join([op, str(x)] + t[2:]) for x in _id_neighbours(int(t[1]), rng)]
+            if op == "cell_to_boundary" and len(t) == 4:
+                out += [f"cell_to_boundary_default {t[1]}", f"cell_to_boundary {t[1]} {1 - int(t[2])} {t[3]}",
+                        f"cell_to_boundary {t[1]} {t[2]} {rng.choice([x for x in ('1', '2', '3', '7', 'none') if x != t[3]])}"]
         elif op == "lonlat_to_cell" and len(t) == 4:
             lon, lat, r = geo.fx(t[1]), geo.fx(t[2]), int(t[3])
             out = [f"{op} {t[1]} {t[2]} {r2}" for r2 in (r - 1, r + 1) if 0 <= r2 <= 29]
